@@ -228,6 +228,29 @@ def _fallback(ctx, f):
     enum_form = M[1] in ("builtins.max", "builtins.min") and \
         len(M[2]) == 1 and M[2][0][0] == "call" and \
         M[2][0][1] == "builtins.enumerate"
+    # the other spelling of an arg-max: the winning *position*
+    #   i = max(range(len(C)), key=lambda k: C[k]);  count = C[i]
+    IDX_ALTS = None
+    if not ok_am and not enum_form and M[1] == "builtins.max" and \
+            len(M[2]) == 1 and M[2][0][0] == "call" and \
+            M[2][0][1] == "builtins.range" and len(M[2][0][2]) == 1 and \
+            M[2][0][2][0][0] == "call" and \
+            M[2][0][2][0][1] == "builtins.len":
+        C = M[2][0][2][0][2][0]
+        key_ = dict(M[3]).get("key")
+        pos_ok = key_ is not None and ((
+            key_[0] == "lambda" and len(key_[1]) == 1 and key_[2] == (
+                "sub", C, ("lparam", key_[1][0])))
+            or key_ == ("attr", C, "__getitem__"))
+        Cn = nrm(C)
+        if pos_ok and nrm(maxes[0][0]) in (nrm(("sub", C, M)),
+                                           ("sub", Cn, nrm(M))) and \
+                Cn[0] == "comp" and len(Cn[3]) == 1 and not Cn[3][0][2]:
+            MODELS = Cn[3][0][1]
+            ok_am = Cn[2] == ("attr", ("elem", MODELS), "feat_pass")
+            why_am = f"counts compared: {show(Cn, 120)}"
+            IDX_ALTS = (M, nrm(M))
+            enum_form = True        # read: judged below
     if not ok_am and not enum_form:
         raise AnalysisError(
             f"{f.qual}: the arg-max over the per-model counts is written in "
@@ -269,6 +292,8 @@ def _fallback(ctx, f):
         return None
 
     def same_idx(i):
+        if IDX_ALTS is not None:
+            return i in IDX_ALTS or nrm(i) in IDX_ALTS
         return i in (IDX, ("sub", M, ("const", 0)))
 
     fd = field(DESC)
